@@ -58,41 +58,20 @@ def role_of(container: str) -> str | None:
     return None
 
 
+def _known(x: ast.expr):
+    m = _membership_atom(x)
+    if m is None:
+        return None
+    r = role_of(m[0])
+    return None if r is None else ("+" if m[1] else "-") + r
+
+
 def raise_table(fn: ast.AST, raises: list[ast.Raise], atoms: list[str]):
-    """For every assignment of the atoms: does some raise become reachable (lexical guards)?"""
-    def known(x: ast.expr):
-        m = _membership_atom(x)
-        if m is None:
-            return None
-        r = role_of(m[0])
-        return None if r is None else ("+" if m[1] else "-") + r
-    out = {}
-    from ..absint.booltab import atoms_of, evaluate
-    for vals in itertools.product([False, True], repeat=len(atoms)):
-        env0 = dict(zip(atoms, vals))
-        hit = False
-        for r in raises:
-            gs = lexical_guards(fn, r) or []
-            atomize = generic_atomizer(known)
-            names = []
-            for e, _ in gs:
-                for a in atoms_of(e, atomize):
-                    if a not in names:
-                        names.append(a)
-            free = [n for n in names if n.startswith("?")]
-            # opaque guards (e.g. which diagnostic flavour) are existential: some valuation reaches the raise
-            for fv in itertools.product([False, True], repeat=len(free)):
-                env = dict(zip(free, fv))
-                for n in names:
-                    if not n.startswith("?"):
-                        env[n] = env0[n[1:]] if n[0] == "+" else (not env0[n[1:]])
-                if all(evaluate(e, env, atomize) == pol for e, pol in gs):
-                    hit = True
-                    break
-            if hit:
-                break
-        out[vals] = hit
-    return out
+    """atoms assignment -> True (a raise is reached whatever the other guards say), False (never),
+    or 'sometimes' (depends on a condition the rule does not know: reported as a mismatch)."""
+    from ..guards import raise_condition_table
+    t = raise_condition_table(fn, raises, atoms, _known)
+    return {k: (True if v == "always" else (False if v == "never" else "sometimes")) for k, v in t.items()}
 
 
 def run(ctx: Ctx) -> None:
